@@ -586,6 +586,15 @@ class Evaluator:
                 return ('call', n, args)
             if n == 'make_pair' and len(args) == 2:
                 return ('pair', args[0], args[1])
+            if n in ('min', 'max') and len(args) == 2 and (q or '').startswith('std::'):
+                # std::min(a,b) = (b < a) ? b : a ; std::max(a,b) = (a < b) ? b : a
+                c_ = ('cmp', '<', args[1], args[0]) if n == 'min' else ('cmp', '<', args[0], args[1])
+                tv_ = self.truth(c_)
+                if tv_ is True:
+                    return args[1]
+                if tv_ is False:
+                    return args[0]
+                return ('ite', c_, args[1], args[0])
             if n == 'accumulate' and len(args_e) == 3 and q.startswith('std::'):
                 b_, e_ = strip(args_e[0], casts=True), strip(args_e[1], casts=True)
                 while b_.get('k') == 'construct' and len(b_['args']) == 1:
